@@ -101,7 +101,11 @@ func (fg *FG) block(b *ssa.BasicBlock, pkg *types.Package) {
 	var st *State
 	_, isHeader := fg.loopBlocks[b.Index]
 	if b.Index == 0 {
-		st = fg.entrySt.clone()
+		if fg.inlineEntry != nil {
+			st = fg.inlineEntry
+		} else {
+			st = fg.entrySt.clone()
+		}
 	} else {
 		// incoming forward edges
 		type inc struct {
@@ -704,6 +708,18 @@ func (fg *FG) localResolverAt(at *ssa.BasicBlock, h *ssa.BasicBlock, st *State) 
 
 // ret emits the postcondition obligations at a return.
 func (fg *FG) ret(b *ssa.BasicBlock, st *State, t *ssa.Return, pkg *types.Package) {
+	if fg.inlineRets != nil {
+		var rs []Val
+		for _, rv := range t.Results {
+			v := fg.val(rv)
+			if v.Loc != nil && v.T == "" {
+				fg.fail("interior address returned from inlined function")
+			}
+			rs = append(rs, v)
+		}
+		*fg.inlineRets = append(*fg.inlineRets, inlineRet{guard: fg.R[b.Index], results: rs, st: st})
+		return
+	}
 	env := fg.envAt(st, pkg, nil)
 	for i, rv := range t.Results {
 		v := fg.val(rv)
